@@ -198,7 +198,7 @@ Definition c03_chan_ok (c : nat) (steps : list step) (obs : list opobs) : bool :
     let scripted := fst acc ++ on_chan c (ob_delivered ob) in
     let handed := if Nat.eqb (st_chan st) c then
                     match st_op st, ob_res ob with
-                    | (AProcess | ABuild), (RMsgs l | RMsgsErr l _) => snd acc ++ l
+                    | (AProcess | AStart | ABuild), (RMsgs l | RMsgsErr l _) => snd acc ++ l
                     | _, _ => snd acc
                     end
                   else snd acc in
@@ -208,7 +208,7 @@ Definition c03_chan_ok (c : nat) (steps : list step) (obs : list opobs) : bool :
      (* and nothing is left waiting once the channel's buffer is empty *)
      (if Nat.eqb (st_chan st) c then
         match st_op st, ob_res ob with
-        | (AProcess | ABuild), RMsgs _ =>
+        | (AProcess | AStart | ABuild), RMsgs _ =>
           if Nat.eqb (sn_inbound (ob_snap ob)) 0 && healthy (ob_snap ob)
           then Nat.eqb (length handed) (length (group_msgs scripted None)) else true
         | _, _ => true
@@ -261,6 +261,12 @@ Definition c14_chan_ok (c : nat) (steps : list step) (obs : list opobs) : bool :
            forallb (fun t => existsb (fun w => oname_eqb (o_name w) WCancel && bytes_eqb (o_str w) t)
                                      (ob_written ob))
                    (sn_tags (prev_snap c steps obs empty_snap k))
+         | _ => true
+         end
+       | AStart =>
+         (* start_consuming returned normally: no consumer is left (or the channel is closed) *)
+         match ob_res ob with
+         | RMsgs _ => match sn_tags (ob_snap ob) with [] => true | _ => negb (st_eqb (sn_state (ob_snap ob)) OPEN) end
          | _ => true
          end
        | _ => true
